@@ -171,16 +171,17 @@ def _pub(e):
 def report_parser_violations(ctx, found, byid):
     """One violation per failing class: (invariant, rows [, example]) - commands merged."""
     single_bad = set()
-    for eid in found.get("ImplRoutesEquivalent", ()):
-        e = byid[eid]
-        if e["kind"] == "single":
-            single_bad.add((e["items"][0]["k"], e["items"][0]["e"]))
+    for name, ids in found.items():
+        for eid in ids:
+            e = byid[eid]
+            if e["kind"] == "single":
+                single_bad.add((name, (e["items"][0]["k"], e["items"][0]["e"])))
     groups = {}
     for name, ids in found.items():
         for eid in sorted(ids):
             e = byid[eid]
             items = [(it["k"], it["e"]) for it in e["items"]]
-            if e["kind"] == "pair" and name == "ImplRoutesEquivalent" and any(it in single_bad for it in items):
+            if e["kind"] == "pair" and any((name, it) in single_bad for it in items):
                 continue  # already reported by the single-tag case
             if e["kind"] == "single":
                 key = "parser:%s:%s:%s" % (name, items[0][0], items[0][1])
@@ -195,7 +196,7 @@ def report_parser_violations(ctx, found, byid):
         "ImplRoutesEquivalent": "a tag given in the configuration file and its command-line option give different settings",
         "ImplOptionOverridesTag": "option given together with the same tag in the file does not equal the option alone",
         "ImplMixedIndependent": "compatible tags give different settings when split between file and options",
-        "ImplTagSemantics": "documented tag does not have its documented effect on the settings",
+        "ImplTagSemantics": "tag does not have the effect on the settings that the documentation (table) records",
         "ImplDefaults": "defaults of the command differ from the documented ones",
     }
     for (name, key), es in sorted(groups.items()):
@@ -207,8 +208,10 @@ def run(ctx):
     ctx.rule = ("parser level: every (command, configuration of one or two tag=value items, way of giving it: "
                 "file / options / split / both) is one case, a case is non-trivial when distinct; "
                 "workflow level: every (command, calculator, crystal, step of the workflow with its inputs) is one case")
+    part = os.environ.get("C18_PART", "all")  # debugging aid: parser | workflow
     table_self_check(ctx)
-    parser_level(ctx)
-    if os.environ.get("C18_SKIP_WORKFLOW") != "1":
+    if part in ("all", "parser"):
+        parser_level(ctx)
+    if part in ("all", "workflow"):
         from harness import c18_workflow as W
         W.workflow_level(ctx)
